@@ -53,6 +53,17 @@ def gen_sign_case(r):
             top['data'] = ET.fake_clearsign(text, 'orig').encode('utf8')
             top['size'] = len(top['data'])
     c.meta['signed_subs'] = signed_subs
+    # now and then the top-level Manifest itself is stored compressed (a save with a watermark may then rename it)
+    if r.random() < 0.25:
+        fmt = r.choice([f for f in GT.FORMATS if f])
+        root = t.lookup('')
+        ino = t.lookup('Manifest')
+        top['data'] = ET.compress(fmt, top['data'])
+        top['size'] = len(top['data'])
+        t.unlink(root, 'Manifest')
+        t.link(root, 'Manifest.' + fmt, ino)
+        c.top = 'Manifest.' + fmt
+    c.meta['top'] = c.top
     sign = r.choice([None, None, True, False])
     keyid = r.choice([None, None, 'KEY1', 'bad'])
     vpgp = r.random() < 0.8
@@ -111,11 +122,16 @@ def c14(ctx):
             continue
         files = files_of(out[2][1])
         loaded = set(out[3][1])
-        top = files.get('Manifest', b'')
+        # the top-level Manifest after the save: the loaded Manifest of the top directory with the logical name Manifest
+        tops = [q for q in loaded if '/' not in q and PU.logical(q) == 'Manifest' and q in files]
+        top_name = tops[0] if len(tops) == 1 else c.top
+        top = OX.plain_bytes(top_name, files.get(top_name, b'')) or b''
         is_signed, body = cleartext(top)
         # was the top-level Manifest written by this run?
-        pre_top = c.tree.nodes[c.tree.lookup('Manifest')]['data']
-        written = top != pre_top
+        pre_top = OX.plain_bytes(c.top, c.tree.nodes[c.tree.lookup(c.top)]['data']) or b''
+        written = top != pre_top or top_name != c.top
+        if top_name != c.top:
+            st['top_renamed'] = st.get('top_renamed', 0) + 1
         if not written:
             st['top_not_rewritten'] += 1
         else:
@@ -133,7 +149,8 @@ def c14(ctx):
                     ctx.violation('spec', f'signed with another key than requested ({key})', replay)
                 # the signed cleartext is exactly the entries written: the plain twin's top-level Manifest
                 if ip[0] == 'ok' and ip[1][0][0] == 'ok' and ip[1][1][0] == 'ok':
-                    ptop = files_of(ip[1][2][1]).get('Manifest', b'')
+                    pfiles = files_of(ip[1][2][1])
+                    ptop = OX.plain_bytes(top_name, pfiles.get(top_name, b'')) or b''
                     if body != ptop:
                         replay['signed_cleartext'] = body.decode('latin1')[:800]
                         replay['plain_save'] = ptop.decode('latin1')[:800]
@@ -143,7 +160,7 @@ def c14(ctx):
         # sub-Manifests are never signed
         pre = {q: c.tree.nodes[ino]['data'] for q, ino in c.tree.files()}
         for mp_ in loaded:
-            if mp_ != 'Manifest' and mp_ in files and pre.get(mp_) != files[mp_]:
+            if mp_ != top_name and mp_ in files and pre.get(mp_) != files[mp_]:
                 raw = OX.plain_bytes(mp_, files[mp_]) or b''
                 st['sub_manifests_checked'] += 1
                 if b'BEGIN PGP' in raw:
@@ -170,7 +187,7 @@ def real_gpg(ctx, r, quick):
     kd = gpgenv.keydata()
     old_home = os.environ.get('GNUPGHOME')
     st = {'signed_and_verified': 0, 'plain': 0, 'signing_failure_reported': 0, 'runs': 0}
-    n = 40 if quick else 160
+    n = 60 if quick else 240
     try:
         with gpgenv.GpgHome() as usable, gpgenv.GpgHome() as pubonly, ET.Scratch() as sc:
             usable.import_key(kd.PRIVATE_KEY)
@@ -192,26 +209,38 @@ def real_gpg(ctx, r, quick):
                 home = r.choice([usable, usable, pubonly])
                 want = sign if sign is not None else orig_signed
                 key_usable = home is usable and keyid in (None, kd.KEY_FINGERPRINT)
+                via_cli = r.random() < 0.5
                 b, s = sc.fresh()
                 b2, _ = sc.fresh()
                 st['runs'] += 1
-                replay = {'orig_signed': orig_signed, 'sign': sign, 'keyid': keyid, 'secret_key_in_home': home is usable, 'requested_key_usable': key_usable, 'files': c.meta.get('files')}
+                replay = {'via_cli': via_cli, 'orig_signed': orig_signed, 'sign': sign, 'keyid': keyid, 'secret_key_in_home': home is usable, 'requested_key_usable': key_usable, 'files': c.meta.get('files')}
                 try:
                     t.realise(b, s)
                     t.realise(b2, None) if False else None
                     os.environ['GNUPGHOME'] = home.home
                     env = go.SystemGPGEnvironment()
                     res = None
-                    try:
-                        m = rl.ManifestRecursiveLoader(os.path.join(b, 'Manifest'), verify_openpgp=True, openpgp_env=env,
-                                                       sign_openpgp=sign, openpgp_keyid=keyid, hashes=['SHA256', 'SHA512'])
-                        m.update_entries_for_directory('')
-                        m.save_manifests(force=True)
-                        res = 'ok'
-                    except ge.OpenPGPSigningFailure:
-                        res = 'OpenPGPSigningFailure'
-                    except Exception as e:
-                        res = type(e).__name__
+                    if via_cli:
+                        # the command-line front end: gemato update [--sign | --no-sign] [--openpgp-id KEY]
+                        argv = ['gemato', 'update', '--hashes', 'SHA256 SHA512', '--force-rewrite']
+                        argv += ['--sign'] if sign is True else ['--no-sign'] if sign is False else []
+                        argv += ['--openpgp-id', keyid] if keyid else []
+                        rc_cli, items = PT.run_cli_collect(argv + [b])
+                        replay['argv'] = argv
+                        replay['cli'] = [rc_cli, items]
+                        res = 'ok' if rc_cli == 0 else (items[-1][1] if items and items[-1][0] == '<error>' else str(rc_cli))
+                        st['cli_runs'] = st.get('cli_runs', 0) + 1
+                    else:
+                        try:
+                            m = rl.ManifestRecursiveLoader(os.path.join(b, 'Manifest'), verify_openpgp=True, openpgp_env=env,
+                                                           sign_openpgp=sign, openpgp_keyid=keyid, hashes=['SHA256', 'SHA512'])
+                            m.update_entries_for_directory('')
+                            m.save_manifests(force=True)
+                            res = 'ok'
+                        except ge.OpenPGPSigningFailure:
+                            res = 'OpenPGPSigningFailure'
+                        except Exception as e:
+                            res = type(e).__name__
                     topb = open(os.path.join(b, 'Manifest'), 'rb').read()
                     is_signed = topb.startswith(BEGIN)
                     if want and not key_usable:
